@@ -184,3 +184,75 @@ func c08Binding(o *Out, r *Rng) {
 	o.Emit(Case{Term: N("c08b", LS(objTerms), LS(ordT), LS(evs)), Obs: LS(outs),
 		Meta: map[string]interface{}{"schema": sdl.String(), "history": hist}, Nontrivial: true})
 }
+
+// ---- a Go type that is bound after it was first seen -----------------------------------------------------
+//
+// C08 speaks of the Go type of a returned object being bound to an object type "by registration, by the @go
+// directive or by name".  The binding can come after the first request that returned such an object (RegisterType
+// called later, a later load that brings the type the Go type binds to by name): from then on the object is
+// resolved as its concrete type — whatever was worked out, and kept, while it could not be determined.  Fixed
+// table, every run; the expected answer is the one of a root that was bound before its first request.
+
+type HoundC08 struct{ F0 string }
+type LateC08 struct{ F0 string }
+
+type c08LateQ struct {
+	Pet  interface{}
+	Pets []interface{}
+}
+type c08LateTop struct{ Query *c08LateQ }
+
+func c08Late(o *Out) {
+	const base = "interface Named { f0: String }\nunion Furry = Dog\ntype Dog implements Named { f0: String }\ntype Query { pet: Named pets: [Named] }\n"
+	const doc = "{ pet { __typename f0 ... on Dog { d: f0 } ... on Furry { __typename } ... on LateC08 { l: f0 } } pets { __typename f0 } }"
+	type step func(root *ggql.Root)
+	register := func(root *ggql.Root) {
+		if err := root.RegisterType(&HoundC08{}, "Dog"); err != nil {
+			panic(err)
+		}
+	}
+	load := func(root *ggql.Root) {
+		if err := root.ParseString("type LateC08 implements Named { f0: String }"); err != nil {
+			panic(err)
+		}
+	}
+	for _, e := range []struct {
+		name string
+		val  func() interface{}
+		bind step
+		sdl  string
+	}{
+		{"RegisterType after the first request", func() interface{} { return &HoundC08{F0: "rex"} }, register, base},
+		{"by-name object type loaded after the first request", func() interface{} { return &LateC08{F0: "new"} }, load,
+			strings.Replace(base, "... on LateC08 { l: f0 }", "", 1)},
+	} {
+		mk := func() *ggql.Root {
+			root := ggql.NewRoot(&c08LateTop{Query: &c08LateQ{Pet: e.val(), Pets: []interface{}{e.val(), e.val()}}})
+			if err := root.ParseString(e.sdl); err != nil {
+				panic(err)
+			}
+			return root
+		}
+		d := doc
+		if strings.Contains(e.name, "RegisterType") {
+			d = strings.Replace(doc, " ... on LateC08 { l: f0 }", "", 1)
+		}
+		// reference: bound before the first request
+		ref := mk()
+		e.bind(ref)
+		want := canon(safeResolve(ref, d, "", nil))
+		// history: a request (or three) while the type can not be determined, then the binding, then the request
+		root := mk()
+		early := d
+		if !strings.Contains(e.name, "RegisterType") {
+			early = "{ pet { __typename f0 } pets { __typename f0 } }" // LateC08 is not a type yet
+		}
+		first := canon(safeResolve(root, early, "", nil))
+		_ = canon(safeResolve(root, early, "", nil))
+		e.bind(root)
+		got := canon(safeResolve(root, d, "", nil))
+		o.Count("late-binding histories")
+		o.Emit(Case{Term: N("c08l", S(e.name)), Obs: N("obs", B(got == want), B(strings.Contains(want, `"__typename":"Named"`))),
+			Meta: map[string]interface{}{"history": e.name, "before_binding": first, "after_binding": got, "bound_first": want}, Nontrivial: true})
+	}
+}
